@@ -1,4 +1,212 @@
 import Ptn.C20.Model
-/-! Property theorems for C20. Only property theorems and non-vacuity examples live here. -/
+import Ptn.C20.Lemmas
+import Ptn.C20.ExpLemmas
+/-! Property theorems for C20. Only property theorems and non-vacuity examples live here.
+
+  The dispatch theorems are about the executable model `Ptn.C20.timeEvolve` / `fastExpAction`
+  (tied to `/repo` by the correspondence stage); the analytic consequences are theorems about the
+  matrix exponential over `ℂ` instantiated at the exponent `t · c · H` that the model hands to the
+  selected routine.  What is NOT proved: that scipy's routines meet their contracts (validated
+  numerically by the oracle). -/
 namespace Ptn.C20
+open Matrix NormedSpace
+
+/-! ### Dispatch -/
+
+/-- The enum values are pairwise distinct: looking a member up by its value returns the member.
+    (This is what makes the string dispatch inside `fast_exp_action` well defined.) -/
+theorem value_roundtrip (m : Mode) : Mode.ofValue? m.value = some m := by
+  cases m <;> decide
+
+/-- The complete routing table: for every mode, direction, dimension and shape exactly this
+    routine is called. -/
+theorem dispatch_spec (m : Mode) (f : Bool) (n : Nat) (shape : List Nat) :
+    (timeEvolve m f n shape).routine =
+      match m with
+      | .rk45 => .solveIvp "RK45"
+      | .rk23 => .solveIvp "RK23"
+      | .dop853 => .solveIvp "DOP853"
+      | .bdf => .solveIvp "BDF"
+      | .fastest => .expmMultiply
+      | .chebyshev => .expmMultiply
+      | .expm => .expmDense
+      | .sparse => .expmSparse
+      | .eigsh => if n < 4 then .expmDense else .eigshTrunc (min (n - 2) 8) := by
+  cases m <;> simp [timeEvolve, Mode.isScipy, Mode.inScipyList, Mode.fastestEquivalent,
+    Mode.value, fastExpAction]
+
+/-- Every mode is routed to a real routine (never to the `"none"` branch and never to
+    `NotImplementedError`); the ODE branch is taken exactly by the four solver modes, which pass
+    their own value as `method`; every other mode goes through `fast_exp_action` with its own
+    value; `FASTEST` is routed like `CHEBYSHEV`. -/
+theorem dispatch_total (m : Mode) (f : Bool) (n : Nat) (shape : List Nat) :
+    let r := timeEvolve m f n shape
+    r.routine ≠ .noAction ∧ r.routine ≠ .notImplemented ∧
+    (m.isScipy = true ↔ r.routine = .solveIvp m.value) ∧
+    (m.isScipy = true ↔ m ∈ [Mode.rk45, Mode.rk23, Mode.dop853, Mode.bdf]) ∧
+    (m.isScipy = true → r.timeUse = .span ∧ r.feaArg = none ∧ r.castComplex = true) ∧
+    (m.isScipy = false → r.timeUse = .factor ∧ r.feaArg = some m.value) ∧
+    (timeEvolve .fastest f n shape).routine = (timeEvolve .chebyshev f n shape).routine := by
+  cases m <;> simp [timeEvolve, Mode.isScipy, Mode.inScipyList, Mode.fastestEquivalent,
+    Mode.value, fastExpAction]
+  split <;> simp
+
+/-- A mode string outside the six known ones raises `NotImplementedError`; `"none"` returns the
+    vector unchanged (unreachable from `TimeEvoMode` by `dispatch_total`). -/
+theorem fea_unknown_raises (mode : String) (n : Nat)
+    (h : mode ∉ ["fastest", "expm", "eigsh", "chebyshev", "sparse", "none"]) :
+    fastExpAction mode n = .notImplemented ∧ fastExpAction "none" n = .noAction := by
+  simp only [List.mem_cons, List.not_mem_nil, or_false, not_or] at h
+  obtain ⟨h1, h2, h3, h4, h5, h6⟩ := h
+  simp [fastExpAction, h1, h2, h3, h4, h5, h6]
+
+/-- Under the contracts of the external routines the selected routine computes `exp(E)·v` for
+    every mode and dimension *except* `eigsh` with `n ≥ 4`. -/
+theorem exact_routine_spec (m : Mode) (f : Bool) (n : Nat) (shape : List Nat) :
+    (timeEvolve m f n shape).routine.exactByContract = true ↔ (m ≠ .eigsh ∨ n < 4) := by
+  cases m <;> simp [timeEvolve, Mode.isScipy, Mode.inScipyList, Mode.fastestEquivalent,
+    Mode.value, fastExpAction, Routine.exactByContract]
+  by_cases h : n < 4
+  · simp [h]
+  · simp [h]
+
+/-! ### Sign -/
+
+/-- `forward ↦ −1 ↦ −i`, `backward ↦ +1 ↦ +i`; the scalar reaches the routine unchanged in both
+    branches; reversing the direction negates it. -/
+theorem sign_spec :
+    sign true = -1 ∧ sign false = 1 ∧
+    rhsCoeff true = ⟨0, -1⟩ ∧ rhsCoeff false = ⟨0, 1⟩ ∧
+    (∀ m f n shape, (timeEvolve m f n shape).coeff = rhsCoeff f) ∧
+    (∀ f, rhsCoeff (!f) = (rhsCoeff f).neg) := by
+  refine ⟨by decide, by decide, by decide, by decide, ?_, by decide⟩
+  intro m f n shape
+  unfold timeEvolve
+  split <;> rfl
+
+/-- The complex number in front of `H` is `−i` forward and `+i` backward. -/
+theorem sign_spec_complex :
+    (rhsCoeff true).toComplex = -Complex.I ∧ (rhsCoeff false).toComplex = Complex.I := by
+  simp [rhsCoeff, sign, GInt.mul, GInt.ofInt, GInt.I, GInt.toComplex]
+
+/-! ### Shape -/
+
+/-- The result has the shape of the input, and C-order `flatten` / `reshape` are mutually inverse:
+    the entry of the result at a (valid) multi-index `idx` is the entry of the routine's flat
+    output at `ravel shape idx`, the flat input at `k` is `psi` at `unravel shape k`, and with the
+    identity in place of the routine `psi` comes back entry by entry. -/
+theorem reshape_spec (m : Mode) (f : Bool) (n : Nat) (shape : List Nat) :
+    (timeEvolve m f n shape).outShape = shape ∧
+    (∀ idx, ValidIdx shape idx → ravel shape idx < size shape ∧
+        unravel shape (ravel shape idx) = idx) ∧
+    (∀ k, k < size shape → ValidIdx shape (unravel shape k) ∧
+        ravel shape (unravel shape k) = k) ∧
+    (∀ (α : Type) (psi : List Nat → α) idx, ValidIdx shape idx →
+        timeEvolveValue shape id psi idx = psi idx) ∧
+    (∀ (α : Type) (v : Nat → α) k, k < size shape →
+        flatten shape (reshape shape v) k = v k) := by
+  refine ⟨?_, ?_, ?_, ?_, ?_⟩
+  · unfold timeEvolve; split <;> rfl
+  · exact fun idx h => ⟨ravel_lt_size shape idx h, unravel_ravel shape idx h⟩
+  · exact fun k h => ⟨valid_unravel shape k h, ravel_unravel shape k h⟩
+  · intro α psi idx h
+    simp [timeEvolveValue, reshape, flatten, unravel_ravel shape idx h]
+  · intro α v k h
+    simp [reshape, flatten, ravel_unravel shape k h]
+
+/-! ### The `eigsh` branch (witness behind finding F-C20) -/
+
+/-- Below dimension 4 the `eigsh` mode falls back to the dense exponential. -/
+theorem eigsh_small_exact (f : Bool) (n : Nat) (shape : List Nat) (h : n < 4) :
+    (timeEvolve .eigsh f n shape).routine = .expmDense := by
+  simp [timeEvolve, Mode.isScipy, Mode.inScipyList, Mode.value, fastExpAction, h]
+
+/-- From dimension 4 on the `eigsh` mode uses `k = min(n − 2, 8)` eigenpairs, and `2 ≤ k < n`:
+    the matrix applied to the vector has rank at most `k < n`. -/
+theorem eigsh_rank_deficient (f : Bool) (n : Nat) (shape : List Nat) (h : 4 ≤ n) :
+    ∃ k, (timeEvolve .eigsh f n shape).routine = .eigshTrunc k ∧ k = min (n - 2) 8 ∧
+      2 ≤ k ∧ k ≤ 8 ∧ k < n := by
+  refine ⟨min (n - 2) 8, ?_, rfl, by omega, by omega, by omega⟩
+  have : ¬ n < 4 := by omega
+  simp [timeEvolve, Mode.isScipy, Mode.inScipyList, Mode.value, fastExpAction, this]
+
+/-- Whatever `eigsh` returns: a matrix `V · W` with `V : n × k`, `k < n` (here
+    `W = diag(exp w) · pinv(V)`) is never the propagator `exp(E)`, for any exponent `E` — the
+    propagator is invertible.  So for `n ≥ 4` the `eigsh` route cannot satisfy the property on
+    all vectors. -/
+theorem eigsh_not_exact_witness (n k : Nat) (hk : k < n) (V : Matrix (Fin n) (Fin k) ℂ)
+    (W : Matrix (Fin k) (Fin n) ℂ) (E : Matrix (Fin n) (Fin n) ℂ) :
+    V * W ≠ exp E ∧ ∃ v : Fin n → ℂ, (V * W) *ᵥ v ≠ exp E *ᵥ v := by
+  have hne : V * W ≠ exp E := lowrank_ne_exp (by simpa using hk) V W E
+  refine ⟨hne, ?_⟩
+  by_contra hall
+  exact hne (Matrix.ext_iff_mulVec.mpr fun v => Classical.byContradiction fun hv => hall ⟨v, hv⟩)
+
+/-! ### Consequences of the exponential's identities -/
+
+section analytic
+variable {ι : Type} [Fintype ι] [DecidableEq ι]
+
+/-- Forward followed by backward evolution (and backward followed by forward) with the exact
+    propagators of the model's exponents is the identity. -/
+theorem forward_backward_id (H : Matrix ι ι ℂ) (t : ℝ) :
+    exp (exponent (rhsCoeff false) H t) * exp (exponent (rhsCoeff true) H t) = 1 ∧
+    exp (exponent (rhsCoeff true) H t) * exp (exponent (rhsCoeff false) H t) = 1 ∧
+    ∀ v : ι → ℂ, exp (exponent (rhsCoeff false) H t) *ᵥ
+        (exp (exponent (rhsCoeff true) H t) *ᵥ v) = v := by
+  have hneg : exponent (rhsCoeff false) H t = -exponent (rhsCoeff true) H t := by
+    have : rhsCoeff false = (rhsCoeff true).neg := by decide
+    rw [this, exponent_neg]
+  rw [hneg]
+  refine ⟨exp_neg_mul_exp _, exp_mul_exp_neg _, fun v => ?_⟩
+  rw [Matrix.mulVec_mulVec, exp_neg_mul_exp, Matrix.one_mulVec]
+
+/-- A Hermitian Hamiltonian gives a unitary propagator in both directions, hence the Euclidean
+    norm (its square `ψᴴψ`) of every vector is preserved. -/
+theorem hermitian_norm_preserved (H : Matrix ι ι ℂ) (hH : Hᴴ = H) (t : ℝ) (f : Bool) :
+    let U := exp (exponent (rhsCoeff f) H t)
+    Uᴴ * U = 1 ∧ ∀ v : ι → ℂ, star (U *ᵥ v) ⬝ᵥ (U *ᵥ v) = star v ⬝ᵥ v := by
+  have hc : (rhsCoeff f).re = 0 := by cases f <;> decide
+  have hU := exp_unitary_of_skew _ (exponent_skew (rhsCoeff f) hc H hH t)
+  exact ⟨hU, norm_sq_preserved _ hU⟩
+
+/-- Zero duration: the propagator is the identity, the state comes back unchanged. -/
+theorem zero_duration_id (H : Matrix ι ι ℂ) (f : Bool) :
+    exp (exponent (rhsCoeff f) H 0) = 1 ∧
+    ∀ v : ι → ℂ, exp (exponent (rhsCoeff f) H 0) *ᵥ v = v := by
+  have : exponent (rhsCoeff f) H 0 = 0 := by simp [exponent]
+  rw [this, NormedSpace.exp_zero]
+  exact ⟨rfl, Matrix.one_mulVec⟩
+
+omit [Fintype ι] [DecidableEq ι] in
+/-- The exponent of the model is `∓ i t H`. -/
+theorem exponent_spec (H : Matrix ι ι ℂ) (t : ℝ) :
+    exponent (rhsCoeff true) H t = (-(Complex.I * t)) • H ∧
+    exponent (rhsCoeff false) H t = (Complex.I * t) • H := by
+  obtain ⟨h1, h2⟩ := sign_spec_complex
+  unfold exponent
+  rw [h1, h2]
+  constructor <;> congr 1 <;> ring
+
+end analytic
+
+/-! ### Non-vacuity: concrete instances -/
+
+example : (timeEvolve .rk45 true 6 [2, 3]).routine = .solveIvp "RK45" := by decide
+example : (timeEvolve .eigsh false 12 [12]).routine = .eigshTrunc 8 := by decide
+example : (timeEvolve .eigsh false 5 [5, 1]).routine = .eigshTrunc 3 := by decide
+example : (timeEvolve .eigsh true 3 [3]).routine = .expmDense := by decide
+example : (timeEvolve .fastest true 4 [2, 2]).feaArg = some "fastest" := by decide
+example : ValidIdx [2, 3, 1] [1, 2, 0] ∧ ravel [2, 3, 1] [1, 2, 0] = 5 ∧
+    unravel [2, 3, 1] 5 = [1, 2, 0] := by
+  refine ⟨?_, by decide, by decide⟩
+  simp [ValidIdx]
+example : ("Fastest" : String) ∉ ["fastest", "expm", "eigsh", "chebyshev", "sparse", "none"] := by
+  decide
+/-- a Hermitian matrix that is not real symmetric: the hypothesis of `hermitian_norm_preserved`
+    is satisfiable non-trivially -/
+example : (!![0, Complex.I; -Complex.I, 1] : Matrix (Fin 2) (Fin 2) ℂ)ᴴ =
+    !![0, Complex.I; -Complex.I, 1] := by
+  ext i j; fin_cases i <;> fin_cases j <;> simp [Matrix.conjTranspose_apply]
+
 end Ptn.C20
